@@ -84,7 +84,7 @@ ECTX = {
     'subscript': lambda E, k: 'ident[%s]' % E,
     'slice': lambda E, k: 'ident[%s:]' % E,
     'attrbase': lambda E, k: '(%s).real' % E,
-    'fstring': lambda E, k: 'f"{%s}"' % E,
+    'fstring': lambda E, k: 'f"{ %s }"' % E,   # the spaces keep a display at either end from reading as an escaped brace
     'list': lambda E, k: '[%s]' % E,
     'tuple': lambda E, k: '(%s,)' % E,
     'set': lambda E, k: '{%s}' % E,
@@ -201,7 +201,7 @@ def deco(v):
 
 # --- static oracle -----------------------------------------------------------
 
-def static_violations(code):
+def static_violations(code, print_native_ok=True):
   """Native constructs surviving in generated code (list of (kind, text))."""
   tree = ast.parse(code)
   out = []
@@ -230,10 +230,10 @@ def static_violations(code):
         ok = True
       if packer_ok and isinstance(f, ast.Name) and f.id in ('tuple', 'dict'):
         ok = True
-      if isinstance(f, ast.Name) and f.id == 'print':
+      if isinstance(f, ast.Name) and f.id == 'print' and print_native_ok:
         ok = True
       if (isinstance(f, ast.Call) and is_ag(f.func) and f.func.attr == 'ld' and len(f.args) == 1 and
-          isinstance(f.args[0], ast.Name) and f.args[0].id == 'print'):
+          isinstance(f.args[0], ast.Name) and f.args[0].id == 'print') and print_native_ok:
         ok = True   # documented: print stays native when builtin overloading is off (its arguments do not)
       if not ok:
         out.append(('call', ast.unparse(n)))
@@ -398,6 +398,18 @@ def run_item(item, tier, pid, break_static=False):
     for kind, text in static_violations(code):
       if not any(v[0] == 'native-' + kind for v in viol):
         viol.append(('native-' + kind, 'generated code contains a native %s: %s' % (kind, text[:120]), ()))
+
+    if 'print(' in src:
+      # the same function converted afterwards, by the same transpiler, with builtin overloading on: now print goes
+      # through the call operator as well (conversions with different option sets must not influence each other)
+      try:
+        F = h.malt.experimental.Feature
+        code2 = h.malt.to_code(h.f, experimental_optional_features=(F.BUILTIN_FUNCTIONS,))
+        for kind, text in static_violations(code2, print_native_ok=False):
+          if not any(v[0] == 'native-' + kind + '@builtins' for v in viol):
+            viol.append(('native-' + kind + '@builtins', 'converted with BUILTIN_FUNCTIONS after a conversion without: generated code contains a native %s: %s' % (kind, text[:120]), ()))
+      except Exception as e:  # pylint:disable=broad-except
+        viol.append(('convert-error@builtins', 'conversion with BUILTIN_FUNCTIONS failed with %s: %s' % (type(e).__name__, str(e).strip().split('\n')[0][:200]), ()))
 
     def run_ref():
       mon.enabled = False
